@@ -39,10 +39,17 @@ def cases(tier, seed):
             m = min(m, 12)
         out.append({"kind": "rand", "N": N, "m": m, "lower": lo, "upper": hi, "box": bk, "i": i, "seed": seed,
                     "pts": 120 if tier == "quick" else 300})
+        if i % 3 == 1:
+            # the object under test lived on another box before (queries there, then SetBounds to this box)
+            plo, phi, _ = scenario.gen_box(rng, N)
+            out[-1]["prebox"] = [plo, phi]
     for i in range(16 if tier == "quick" else 80):
         rng = scenario.rng_for(seed, "C09n1", i)
         lo, hi, bk = scenario.gen_box(rng, 1)
         out.append({"kind": "n1", "N": 1, "m": int(rng.integers(1, 51)), "lower": lo, "upper": hi, "box": bk, "i": i, "seed": seed})
+        if i % 2 == 1:
+            plo, phi, _ = scenario.gen_box(rng, 1)
+            out[-1]["prebox"] = [plo, phi]
     return out
 
 
@@ -112,6 +119,22 @@ def check_point(ev, un, y_arg, y, lo, side, m, n, viol, obs, absmax, what):
             viol.append({"mech": "image-of-inverse-farther-than-half-cell", "y": [float(v) for v in y], "image": img.tolist(), "half_cell": half.tolist(), "what": what})
 
 
+def make_evolvent(c, N, m, rng, obs):
+    """the Evolvent for the case's box: fresh, or an object that answered queries on another box first and was then re-bounded"""
+    if not c.get("prebox"):
+        return Evolvent(c["lower"], c["upper"], N, m)
+    plo, phi = np.array(c["prebox"][0], dtype=float), np.array(c["prebox"][1], dtype=float)
+    ev = Evolvent(c["prebox"][0], c["prebox"][1], N, m)
+    for q in range(4):
+        y = plo + rng.random(N) * (phi - plo)
+        ev.GetInverseImage(y)
+        ev.GetPreimages(list(y))
+        ev.GetImage(float(rng.random()))
+    ev.SetBounds(c["lower"], c["upper"])
+    obs["rebounded_objects"] = obs.get("rebounded_objects", 0) + 1
+    return ev
+
+
 def run_case(c):
     N, m, kind = c["N"], c["m"], c["kind"]
     _WORKBUF.clear()
@@ -147,7 +170,7 @@ def run_case(c):
         hi = np.array(c["upper"], dtype=float)
         side = hi - lo
         absmax = float(max(np.abs(lo).max(), np.abs(hi).max()))
-        ev = Evolvent(c["lower"], c["upper"], N, m)
+        ev = make_evolvent(c, N, m, rng, obs)
         un = em.unit_evolvent(N, m)
         cw = side / float(2 ** m)
         kinds_seen = {}
@@ -251,7 +274,7 @@ def run_case(c):
 def finalize(obs, tier, stats):
     if obs.get("max_Nm", 0) < 48:
         return "random cells never reached N*m >= 48", {}
-    for k in ("round_trips", "inverse_calls", "face_points", "integer_typed_points", "pts_corner-lower", "pts_corner-upper", "n1_points", "x1_round_trip"):
+    for k in ("round_trips", "inverse_calls", "face_points", "integer_typed_points", "pts_corner-lower", "pts_corner-upper", "n1_points", "x1_round_trip", "rebounded_objects", "work_buffer_queries"):
         if not obs.get(k):
             return "probe class %s never exercised" % k, {}
     return None, {}
